@@ -1940,7 +1940,11 @@ func (x *gen) historyOps(steps int) {
 	for i := range pool {
 		pool[i].spec = x.recipe(x.g.intn(4))
 	}
-	wl := x.wordList(false)
+	wl := x.wordList(true)
+	if x.g.chance(35) {
+		// the long-lived list holds the empty word: drawing it must leave the list as it was
+		wl = append(wl, "")
+	}
 	wlid := fmt.Sprintf("h%d", base)
 	fixed := map[int]string{} // a call replayed later with the same tape must give the same answer
 	for s := 0; s < steps; s++ {
